@@ -56,12 +56,14 @@ def run_real(template, tmpl: dict, plan: list, handler_cfg) -> dict:
 
 
 def run_model(tmpl: dict, plan: list, handler_cfg, case_once=True,
-              guard_tags=True, leaky_scope=False) -> dict:
+              guard_tags=True, leaky_scope=False,
+              raw_default_attr=False) -> dict:
     handler = None
     if handler_cfg is not None:
         handler = Handler(handler_cfg.get("fail_with"))
     m = Model(tmpl, plan, handler, case_once=case_once,
-              guard_tags=guard_tags, leaky_scope=leaky_scope)
+              guard_tags=guard_tags, leaky_scope=leaky_scope,
+              raw_default_attr=raw_default_attr)
     res = m.run()
     if res["out"] is not None:
         res["out"] = norm_out(res["out"])
